@@ -41,6 +41,10 @@ def die(msg):
 # ---------------------------------------------------------------------------------------------
 # TLA+ value parser (for PrintT output): ints, strings, TRUE/FALSE, <<..>>, {..}, [a |-> ..], (a :> b @@ ..)
 # ---------------------------------------------------------------------------------------------
+_RE_INT = re.compile(r"-?\d+")
+_RE_ID = re.compile(r"[A-Za-z_][A-Za-z0-9_]*")
+
+
 class _P:
     def __init__(self, s):
         self.s = s
@@ -94,7 +98,7 @@ class _P:
             rec = {}
             while True:
                 self.ws()
-                m = re.match(r"[A-Za-z_][A-Za-z0-9_]*", s[self.i:])
+                m = _RE_ID.match(s, self.i)
                 key = m.group(0)
                 self.i += len(key)
                 self.eat("|->")
@@ -127,7 +131,7 @@ class _P:
                 j += 1
             self.i = j + 1
             return "".join(buf)
-        m = re.match(r"-?\d+", s[self.i:])
+        m = _RE_INT.match(s, self.i)        # (match at a position: slicing the remainder would make parsing quadratic)
         if m:
             self.i += len(m.group(0))
             return int(m.group(0))
@@ -135,7 +139,7 @@ class _P:
             if s.startswith(lit, self.i):
                 self.i += len(lit)
                 return val
-        m = re.match(r"[A-Za-z_][A-Za-z0-9_]*", s[self.i:])
+        m = _RE_ID.match(s, self.i)
         if m:   # model value
             self.i += len(m.group(0))
             return m.group(0)
